@@ -15,7 +15,7 @@ def main():
     try:
         for prop in sorted(os.listdir(OUT)):
             if only and prop not in only: continue
-            for i in (1, 2, 3, 4, 5, 6, 7, 8):
+            for i in (1, 2, 3, 4, 5, 6, 7, 8, 9, 10):
                 diff = f"{OUT}/{prop}/mutant_{i}.diff"; demo = f"{OUT}/{prop}/demo_{i}.py"; meta = f"{OUT}/{prop}/meta_{i}.json"
                 if not os.path.exists(diff): continue
                 dest = f"{SEEDED}/{prop}_{i}"
